@@ -159,6 +159,27 @@ func call(car string, v reflect.Value, rules string) func() error {
 			_ = valid.Struct(p.Interface(), valid.RM{"F": "le=-7|zz,in=(zz)|zz"})
 			return valid.Struct(p.Interface())
 		}
+	case "struct-tag-after-rejected-call":
+		// the tagged type right after calls that carried rules for a field of the same name but were rejected before
+		// validation (nil source, typed nil pointer): nothing of them may survive
+		st := carrier.TagType(v.Type(), rules)
+		p := reflect.New(st)
+		p.Elem().Field(0).Set(v)
+		return func() error {
+			_ = valid.StructForFn(nil, valid.RM{"F": "required|leak1,le=-7|leak2"})
+			_ = valid.StructForFn(reflect.Zero(reflect.PtrTo(st)).Interface(), valid.RM{"F": "required|leak3,in=(zz)|leak4"})
+			return valid.Struct(p.Interface())
+		}
+	case "struct-rm-set-per-rule":
+		// the same rules accumulated with one RM.Set call per rule
+		st := carrier.TagType(v.Type(), "")
+		p := reflect.New(st)
+		p.Elem().Field(0).Set(v)
+		rm := valid.NewRule()
+		for _, item := range valid.ValidNamesSplit(rules) {
+			rm.Set("F", strings.Clone(item))
+		}
+		return func() error { return valid.Struct(p.Interface(), rm) }
 	case "struct-tagged+rm":
 		// the field declares optional rules in its tag; the per-call rule set replaces them for this call
 		st := carrier.TagType(v.Type(), "to=2~10,phone")
@@ -246,6 +267,9 @@ func run(c *runner.Ctx) {
 	type rform struct{ rules, form string }
 	var forms []rform
 	forms = append(forms, rform{"required", "required"}, rform{"required|必填", "required"}, rform{"required|need it", "required"})
+	// rule texts that mention the word "required" somewhere else than as the rule name
+	forms = append(forms, rform{"to=2~10|value is required to be short,required", "required-last"}, rform{"in=(required/optional),required", "required-last"},
+		rform{"required|need it,eq=2|not required at all", "required-first"})
 	for _, r := range otherRules {
 		forms = append(forms, rform{r, "other"}, rform{"required," + r, "required-first"}, rform{r + ",required", "required-last"})
 	}
@@ -255,14 +279,14 @@ func run(c *runner.Ctx) {
 			if !c.Take() {
 				continue
 			}
-			cars := []string{"struct-rm", "struct-tagged+rm"}
+			cars := []string{"struct-rm", "struct-tagged+rm", "struct-rm-set-per-rule"}
 			switch tv.v.Kind() { // Map documents scalar values only (int, float, bool, string)
 			case reflect.Slice, reflect.Array, reflect.Map, reflect.Struct, reflect.Ptr:
 			default:
 				cars = append(cars, "map", "map-iface")
 			}
 			if carrier.TagOK(rf.rules) {
-				cars = append(cars, "struct-tag", "struct-tag-after-override")
+				cars = append(cars, "struct-tag", "struct-tag-after-override", "struct-tag-after-rejected-call")
 			}
 			if tv.varOK {
 				cars = append(cars, "var")
@@ -336,7 +360,7 @@ func main() {
 		Property:  "C03",
 		Technique: "complete product of supported field types x emptiness x rule forms x entry points on the real code vs emptiness model",
 		Rule: "every value of a 58-entry catalogue (strings, bool, all numeric kinds, slices nil/empty/non-empty, arrays, maps, structs, pointers to structs and scalars, multi-level pointers) x " +
-			"{required alone (3 message forms), each of 31 other rules alone, required before it, required after it} x carriers {struct tag, struct per-call rule on an untagged field, per-call rule replacing optional tag rules, the tagged type right after a call that overrode its rules, Var, map[string]T, map[string]interface{}} " +
+			"{required alone (3 message forms), each of 31 other rules alone, required before it, required after it} x carriers {struct tag, struct per-call rule on an untagged field, per-call rule replacing optional tag rules, the tagged type right after a call that overrode its rules / right after rejected calls that carried rules, rules accumulated with one RM.Set call per rule, Var, map[string]T, map[string]interface{}} " +
 			"plus map/URL inputs with missing, bare and empty entries (incl. slices of maps whose elements lack / empty the key in every order); evaluation = one call; non-trivial = calls on an empty value",
 		Assumptions: []string{"empty-but-non-nil slices/maps are checked for required only (DESIGN §7)", "non-nil pointers to zero scalars are non-empty (the pointer is supplied)"},
 		Run:         run,
